@@ -23,6 +23,10 @@ pub struct Scn {
     /// evaluate the join offsets of all recorded cycles but the last three (instead of one reference cycle)
     #[serde(default)]
     pub long_span: bool,
+    /// storage fault: the n-th `open()` of an object writer fails once. The object of that writer is lost for the
+    /// cycle; the joiner is then given THREE full cycles instead of two
+    #[serde(default)]
+    pub open_fail_at: Option<u64>,
 }
 
 pub struct C16;
@@ -61,6 +65,10 @@ pub fn gen(idx: u64, rng: &mut Rng, _tier: Tier) -> Scn {
         if !grid && rng.chance(0.3) {
             o.cenc = *rng.pick(&[CencSpec::Gzip, CencSpec::Zlib]);
             o.kind = ContentKind::Text;
+        }
+        if !grid && o.cenc == CencSpec::Null && rng.chance(0.1) {
+            // a disk error when one later cycle starts (the stream is rewound then): that cycle is lost, the carousel goes on
+            o.source = SourceSpec::StreamFailingSeek(ReadSched::Full, rng.range(4, 9) as u32);
         }
         let d = if grid { 15 } else { *rng.pick(&[0u64, 5, 15, 60]) };
         o.carousel = Some(if interval_mode { CarouselSpec::IntervalMs(d + 10) } else { CarouselSpec::DelayMs(d) });
@@ -116,6 +124,7 @@ pub fn gen(idx: u64, rng: &mut Rng, _tier: Tier) -> Scn {
         offsets: None,
         cleanup_every: if grid { 0 } else { *rng.pick(&[0u32, 3]) },
         long_span,
+        open_fail_at: if !grid && rng.chance(0.15) { Some(rng.below(3)) } else { None },
     }
 }
 
@@ -128,6 +137,25 @@ pub fn run(scn: &Scn, ctx: &Ctx, scratch: &Path) {
     let tr = transfers(&scn.sender, trace);
     if sess.objs.is_empty() {
         return;
+    }
+    // every object of the carousel keeps coming round: the time since its last transfer started never exceeds three times
+    // the longest period it has shown (a lost cycle - failed rewind of a stream source - doubles one period, no more)
+    let end_us = trace.pkts.last().map(|p| p.t_us).unwrap_or(0);
+    for o in &sess.objs {
+        let starts: Vec<u64> = tr.list.iter().filter(|t| t.obj == o.idx && !t.pkts.is_empty()).map(|t| trace.pkts[t.pkts[0]].t_us).collect();
+        if starts.len() < 3 {
+            continue;
+        }
+        let period = starts.windows(2).map(|w| w[1] - w[0]).max().unwrap_or(0);
+        let idle = end_us.saturating_sub(*starts.last().unwrap());
+        if idle > 3 * period + 100_000 {
+            violate(
+                ctx,
+                "C16/carousel-object-no-longer-sent",
+                "-",
+                format!("toi={}: {} transfers, longest period {} us, but nothing of it in the last {} us of the recording (the object is still in the carousel)", o.toi, starts.len(), period, idle),
+            );
+        }
     }
     // reference cycle: from the start of the 2nd transfer burst of object 0 to the start of the next burst
     let first = &sess.objs[0];
@@ -147,6 +175,7 @@ pub fn run(scn: &Scn, ctx: &Ctx, scratch: &Path) {
     let ep = [scn.sender.spec.endpoint.build()];
     let mut joins = 0u64;
     let mut fdt_starved = false;
+    let need = if scn.open_fail_at.is_some() { 3 } else { 2 };
     for j in lo..hi {
         // deadline: end of the second full transfer burst of every object and of the second full FDT
         // transmission that start at or after the join
@@ -159,11 +188,11 @@ pub fn run(scn: &Scn, ctx: &Ctx, scratch: &Path) {
                 .iter()
                 .filter(|t| t.obj == o.idx && t.stop_seq.is_some() && t.pkts.first().map(|p| *p >= j).unwrap_or(false))
                 .collect();
-            if full.len() < 2 * st {
+            if full.len() < need * st {
                 enough = false;
                 break;
             }
-            deadline = deadline.max(*full[2 * st - 1].pkts.last().unwrap());
+            deadline = deadline.max(*full[need * st - 1].pkts.last().unwrap());
         }
         let fdts: Vec<usize> = sess.txs.iter().filter(|t| t.first >= j && t.complete_at.is_some()).map(|t| t.last).collect();
         if enough && fdts.len() < 2 && !fdt_starved {
@@ -188,14 +217,15 @@ pub fn run(scn: &Scn, ctx: &Ctx, scratch: &Path) {
                 );
             }
         }
-        if !enough || fdts.len() < 2 {
+        if !enough || fdts.len() < need {
             ctx.borrow_mut().note("skip:join-too-close-to-the-end");
             continue;
         }
-        deadline = deadline.max(fdts[1]);
+        deadline = deadline.max(fdts[need - 1]);
         let which: Vec<usize> = (j..=deadline.min(trace.pkts.len() - 1)).collect();
         let dl = deliveries_in_order(trace, &which);
-        let mut r = receive(&scn.recv, ctx, &ep, &dl, Default::default(), "r0", scn.cleanup_every, 0);
+        let wf = crate::monitor::WriterFaults { fail_open_at: scn.open_fail_at, ..Default::default() };
+        let mut r = receive(&scn.recv, ctx, &ep, &dl, wf, "r0", scn.cleanup_every, 0);
         for o in &sess.objs {
             let (exact, wrong, _) = completes_exact(&r.monitor, o);
             if wrong > 0 {
@@ -208,8 +238,8 @@ pub fn run(scn: &Scn, ctx: &Ctx, scratch: &Path) {
                     "C16/not-delivered-after-late-join",
                     "-",
                     format!(
-                        "receiver joined at packet {} (toi={} sbn={} esi={}; offset {} in the cycle) and saw packets {}..={} without loss (two full cycles of every object and of the FDT) but toi={} {:?} was not delivered",
-                        j, p.dec.toi, p.dec.sbn, p.dec.esi, j - cyc_lo, j, deadline, o.toi, o.scheme
+                        "receiver joined at packet {} (toi={} sbn={} esi={}; offset {} in the cycle) and saw packets {}..={} without loss ({} full cycles of every object and of the FDT{}) but toi={} {:?} was not delivered",
+                        j, p.dec.toi, p.dec.sbn, p.dec.esi, j - cyc_lo, j, deadline, need, if scn.open_fail_at.is_some() { "; one writer open() failed once" } else { "" }, o.toi, o.scheme
                     ),
                 );
             }
